@@ -102,6 +102,10 @@ Eval(e, env) ==
             LET a == Eval(e.a, env) IN
             IF ~a.ok \/ a.v.t # "pkt" THEN Raise
             ELSE IF HasVal(a.v.vals, e.n) THEN Ok(Lookup(a.v.vals, e.n)) ELSE Raise
+      [] e.e = "packlen" ->     \* env.plen: packet value -> outcome of ITS OWN pack() (built lazily by the machines, Packet!PLen)
+            LET a == Eval(e.a, env) IN
+            IF ~a.ok \/ a.v.t # "pkt" THEN Raise
+            ELSE IF a.v \in DOMAIN env.plen THEN env.plen[a.v] ELSE Raise
       [] e.e = "choose" ->      \* every alternative is evaluated (as Python evaluates the dict/list display)
             LET key == Eval(e.key, env)
                 vs == [i \in 1..Len(e.alts) |-> Eval(e.alts[i].v, env)] IN
